@@ -43,6 +43,7 @@ class Monitor:
         self.r = r
         self.st = {}            # sid -> dict
         self.promised = set()
+        self.opened = None      # client: the odd ids it has opened, when the harness knows them
         self.stream_events = 0
 
     def bad(self, key, detail=''):
@@ -89,6 +90,8 @@ class Monitor:
             self.bad('event-on-never-promised-stream:' + n)
         if not self.client and sid % 2 == 0:
             self.bad('event-on-even-stream:' + n)
+        if self.client and sid % 2 == 1 and self.opened is not None and sid not in self.opened:
+            self.bad('event-on-never-opened-stream:' + n)
         if s['reset']:
             self.bad('event-after-StreamReset:' + n)
             return
@@ -144,11 +147,32 @@ def free_sequence(ch, client):
     promise = 2
     live = [1, 3, 5] if client else []
     ended = []                  # streams on which the peer has sent END_STREAM
+    reset = []                  # streams the peer has reset
+    answered = set()            # streams on which the peer has sent final response headers
     for _ in range(ch.int(4, 30)):
         if ch.chance(236):
             # a step a conforming peer could take
             lop = ch.weighted([(4, 'open'), (6, 'data'), (2, 'trailers'), (1, 'rst'), (2, 'push'), (1, 'info'),
-                               (1, 'altsvc'), (1, 'probe-ended')])
+                               (1, 'altsvc'), (1, 'probe-ended'), (2, 'probe-reset')])
+            if lop == 'probe-reset':
+                # after its own RST_STREAM (on an open, half-closed or still only promised stream) the peer goes on
+                # as if nothing had happened: no second StreamReset, nothing of a message after the first
+                unanswered = [x for x in live if x % 2 == 0 and x not in answered]
+                if unanswered and ch.bool():
+                    # a promised stream whose response has not started yet is reset first
+                    sid = ch.pick(unanswered)
+                    frames.append(wire.rst_stream(sid, 8))
+                    live.remove(sid)
+                    reset.append(sid)
+                if reset:
+                    sid = ch.pick(reset[-2:])
+                    for _ in range(ch.int(1, 3)):
+                        frames.append(ch.pick([wire.headers(sid, enc.encode(RESP if client else REQ),
+                                                            end_stream=ch.bool()),
+                                               wire.data(sid, b'late', end_stream=ch.bool()),
+                                               wire.rst_stream(sid, 8),
+                                               wire.headers(sid, enc.encode(TRAIL), end_stream=True)]))
+                continue
             if lop == 'altsvc':
                 # ALTSVC is legal on any stream and changes nothing about the message on it
                 frames.append(wire.altsvc(ch.pick(live + ended + [0]), b'', b'h2=":443"'))
@@ -169,6 +193,7 @@ def free_sequence(ch, client):
                         continue
                     sid = ch.pick(live)
                     es = ch.chance(40)
+                    answered.add(sid)
                     frames.append(wire.headers(sid, enc.encode(RESP), end_stream=es))
                     if es and ch.chance(230):
                         live.remove(sid)
@@ -197,6 +222,8 @@ def free_sequence(ch, client):
                     live.remove(sid)
                     if lop != 'rst':
                         ended.append(sid)
+                    else:
+                        reset.append(sid)
             continue
         sid = ch.pick(sids)
         op = ch.weighted([(8, 'headers'), (7, 'data'), (2, 'rst'), (3, 'push'), (1, 'wu'), (1, 'prio'), (1, 'cont'),
@@ -233,7 +260,14 @@ def run_case(data):
         sc = bytesgen.Scenario()
         sc.client = client
         sc.prefix.append(('initiate_connection', (), {}))
-        if client:
+        idle_client = client and ch.chance(28)
+        if idle_client:
+            # a client that has not sent a request yet, facing a peer that talks to it as if it were a server:
+            # whatever arrives, a client reports no request (and nothing on streams it never opened)
+            opened = set()
+            r.labels.add('client-without-requests')
+        elif client:
+            opened = {1, 3, 5}
             for sid in (1, 3, 5):
                 es = ch.chance(60)
                 sc.prefix.append(('send_headers', (sid, REQ), {'end_stream': es}))
@@ -253,8 +287,9 @@ def run_case(data):
                 # a request that never left: header text that cannot be encoded (the call raises)
                 sc.prefix.append(('send_headers', (7, REQ + [('x-bad-text', 'v\udcff')]), {}, 'refused'))
                 r.labels.add('failed-open-in-prefix')
-        frames = free_sequence(ch, client)
+        frames = free_sequence(ch, client) if not idle_client else free_sequence(ch, False)[1:]
     else:
+        opened = None
         sc = bytesgen.build(ch)
         frames = sc.frames
         if mode == 'model+frames':
@@ -274,6 +309,7 @@ def run_case(data):
         r.labels.add('non-default-config')
     ep = sc.endpoint()
     mon = Monitor(sc.client, r)
+    mon.opened = opened if sc.client else None
     err = None
     r.evals = 0
     for chunk in bytesgen.split(stream, cuts):
